@@ -115,9 +115,11 @@ func simgen(verifDir, repo string, env []string) (*genResult, error) {
 			if err != nil {
 				return nil, err
 			}
-			if rel != "store" {
+			if rel != "store" || libYieldFiles[f] {
 				// pass 1: every channel operation and every goroutine started from a function
-				// literal becomes a scheduling point (line numbers are preserved)
+				// literal becomes a scheduling point (line numbers are preserved); in package store
+				// only the hasher files are treated, with statement-level yields that go to the
+				// library-level interleaver (simrt.LibYield, a no-op unless a harness installs it)
 				ysrc, yrep, yerr := insertYields(path, src)
 				if yerr != nil {
 					return nil, fmt.Errorf("%s: %v", path, yerr)
@@ -520,6 +522,11 @@ func rewriteSelect(fset *token.FileSet, tf *token.File, src []byte, ss *ast.Sele
 // without going through the dispatcher (the session factory and the HTTP handlers).
 var stmtYieldFiles = map[string]bool{"web_session.go": true, "web_api.go": true}
 
+// libYieldFiles: files of package store whose objects (the hashers of a Dir) are shared by
+// overlapping library calls of one process; every statement boundary in them is a scheduling
+// point for the two-caller clauses of the library-level harness.
+var libYieldFiles = map[string]bool{"userhash_argon2id.go": true, "userhash_scryptauth.go": true}
+
 // containsChanOp reports whether the expression tree (not descending into function
 // literals) contains a channel receive.
 func containsRecv(n ast.Node) bool {
@@ -568,7 +575,11 @@ func insertYields(path string, src []byte) ([]byte, []string, error) {
 	})
 	addYield := func(st ast.Stmt) {
 		site := fmt.Sprintf("%s:%d", base, fset.Position(st.Pos()).Line)
-		edits = append(edits, edit{off(st.Pos()), off(st.Pos()), fmt.Sprintf("__simrt.Yield(%q); ", site)})
+		fn := "Yield"
+		if libYieldFiles[base] {
+			fn = "LibYield"
+		}
+		edits = append(edits, edit{off(st.Pos()), off(st.Pos()), fmt.Sprintf("__simrt.%s(%q); ", fn, site)})
 		nyield++
 	}
 	ast.Inspect(f, func(n ast.Node) bool {
@@ -636,7 +647,7 @@ func insertYields(path string, src []byte) ([]byte, []string, error) {
 	})
 	// statement-level yields: in the files that share state between concurrently running HTTP
 	// handlers every statement boundary is a scheduling point (for goroutines the scheduler knows)
-	everyStmt := stmtYieldFiles[base]
+	everyStmt := stmtYieldFiles[base] || libYieldFiles[base]
 	// statements with channel operations
 	ast.Inspect(f, func(n ast.Node) bool {
 		var list []ast.Stmt
